@@ -71,6 +71,7 @@ type c08Case struct {
 	want404     bool
 	label       string // coarse class for the outcome statistics
 	handler     string // which handler to replay on for the panic site
+	setup       string // api cases: "" = no session, "live" = a running step-mode session with id 1, "ended" = that session deleted
 }
 
 func (s *Server) c08Handler(name string) http.HandlerFunc {
@@ -189,6 +190,17 @@ func TestVerifC08(t *testing.T) {
 	} {
 		addCfg(parts, false, "hazard")
 	}
+	// (i-b) configuration-like parts after the asset path: they are not parsed as configuration, but
+	// code that scans the URL parts (Location, patch base URL) still sees them
+	for _, pre := range [][]string{{}, {"startrel_-10"}, {"stoprel_20"}, {"startrel_-10", "stoprel_20"}, {"patch_60", "segtimeline_1"}, {"periods_60"}} {
+		for _, k := range c08Keys {
+			for _, ep := range []string{"Manifest.mpd", "V300/40.m4s", "V300/init.mp4"} {
+				for _, q := range []string{fmt.Sprintf("?nowMS=%d", now), ""} {
+					cases = append(cases, c08Case{method: "GET", url: fmt.Sprintf("%s/testpic_2s/%s/%s%s", vCfgPrefix(pre...), esc(k.name, k.valid), ep, q), label: "misplaced"})
+				}
+			}
+		}
+	}
 	// (ii) segment name shapes
 	for _, mode := range []string{"", "segtimeline_1", "segtimelinenr_1"} {
 		for _, rp := range []string{"V300", "A48", "imsc1_txt_sv", "thumbs", "timestpp-en", "timewvtt-en", "timestpp-xx", "timestpp", "timestpp-", "nope"} {
@@ -297,13 +309,25 @@ func TestVerifC08(t *testing.T) {
 	// /api bodies and ids
 	for _, body := range []string{"", "{", "null", "{}", `{"livesimURL":""}`, `{"livesimURL":"x"}`, `{"livesimURL":"/livesim2/nope/Manifest.mpd","destRoot":"http://x"}`,
 		`{"livesimURL":"http://h/livesim2/testpic_2s/Manifest.mpd","destRoot":"","duration":-5}`, `{"livesimURL":"http://h/livesim2/testpic_2s/V300/1.m4s","destRoot":"http://x","testNowMS":-1}`,
-		`{"livesimURL":"%zz","destRoot":"http://x"}`, `{"livesimURL":"http://h/livesim2/tsbd_abc/testpic_2s/Manifest.mpd","destRoot":"http://x","testNowMS":100000}`} {
+		`{"livesimURL":"%zz","destRoot":"http://x"}`, `{"livesimURL":"/livesim2/testpic 2s/Manifest.mpd","destRoot":"http://x"}`, `{"livesimURL":" ","destRoot":"http://x"}`,
+		`{"livesimURL":"/livesim2/testpic_2s/Manifest.mpd\n","destRoot":"http://x"}`, `{"livesimURL":"/livesim2/testpic_2s/Manifest.mpd\r\nX: y","destRoot":"http://x"}`, `{"livesimURL":"/livesim2/\u0000/Manifest.mpd","destRoot":"http://x"}`,
+		`{"livesimURL":"/livesim2/testpic_2s/Manifest.mpd?a b","destRoot":"http://x"}`, `{"livesimURL":"/livesim2/testpic_2s/Manifest.mpd","destRoot":"http://x y"}`, `{"livesimURL":"/livesim2/testpic_2s/Manifest.mpd","destRoot":"://"}`, `{"livesimURL":"http://h/livesim2/tsbd_abc/testpic_2s/Manifest.mpd","destRoot":"http://x","testNowMS":100000}`} {
 		cases = append(cases, c08Case{method: "POST", url: "/api/cmaf-ingests", body: []byte(body), label: "api", handler: "router"})
+		if strings.HasSuffix(body, "}") && len(body) > 2 {
+			// the schema requires destRoot and destName; without them the request never reaches the handler
+			full := body[:len(body)-1] + `,"destName":"d"}`
+			if !strings.Contains(body, "destRoot") {
+				full = body[:len(body)-1] + `,"destName":"d","destRoot":"http://receiver.invalid/up"}`
+			}
+			cases = append(cases, c08Case{method: "POST", url: "/api/cmaf-ingests", body: []byte(full), label: "api", handler: "router"})
+		}
 	}
 	for _, id := range []string{"0", "1", "-1", "abc", "99999999999999999999", "1.5", ""} {
 		for _, suffix := range []string{"", "/step"} {
 			for _, m := range []string{"GET", "DELETE", "POST"} {
-				cases = append(cases, c08Case{method: m, url: "/api/cmaf-ingests/" + id + suffix, label: "api", handler: "router"})
+				for _, setup := range []string{"", "live", "ended"} {
+					cases = append(cases, c08Case{method: m, url: "/api/cmaf-ingests/" + id + suffix, label: "api", handler: "router", setup: setup})
+				}
 			}
 		}
 	}
@@ -331,8 +355,33 @@ func TestVerifC08(t *testing.T) {
 
 func c08Run(rep *vh.Report, srv *Server, c c08Case) {
 	var resp vResp
-	x := vrt.Run(nil, vrt.RunOpts{LoopHorizon: 3_000_000, WatchdogS: 60, StartNS: 100_000 * 1_000_000}, func(s *vrt.Sched) {
+	opts := vrt.RunOpts{LoopHorizon: 3_000_000, WatchdogS: 60, StartNS: 100_000 * 1_000_000}
+	if c.label == "api" {
+		// API calls start and talk to session goroutines: they run under the scheduler with the
+		// scripted receiver of C16, and the execution ends with the call (a call that never
+		// returns is reported as blocked for ever, not waited for)
+		opts.AllowBlockedDaemons, opts.EndWithMain = true, true
+		http.DefaultClient.Transport = c16RT{}
+		c16Cur = &c16Recv{}
+	}
+	x := vrt.Run(nil, opts, func(s *vrt.Sched) {
+		if c.label == "api" {
+			// every API case starts from a manager of its own (sessions of earlier executions are gone with their goroutines)
+			srv.cmafMgr = NewCmafIngesterMgr(srv)
+			srv.cmafMgr.Start()
+			if c.setup != "" {
+				vDoCT(srv, "POST", "/api/cmaf-ingests", []byte(`{"livesimURL":"/livesim2/testpic_2s/Manifest.mpd","destRoot":"http://receiver.test/up","destName":"c08","testNowMS":100000}`))
+				s.Settle()
+				if c.setup == "ended" {
+					vDoCT(srv, "DELETE", "/api/cmaf-ingests/1", nil)
+					s.Settle()
+				}
+			}
+		}
 		resp = vDoCT(srv, c.method, c.url, c.body)
+		if c.label == "api" {
+			s.Settle()
+		}
 	})
 	rep.AddStates(1)
 	rep.AddTrans(1)
@@ -346,7 +395,7 @@ func c08Run(rep *vh.Report, srv *Server, c c08Case) {
 		case f.Sig == "livelock" || f.Sig == "hang":
 			rep.Violate("C08.b", "hang:"+c.label+":"+c08Shape(c.url), fmt.Sprintf("%s %s: %s", c.method, c.url, f.Msg), in)
 		case f.Sig == "deadlock":
-			rep.Violate("C08.b", "blocked-forever:"+c.label, fmt.Sprintf("%s %s: %s", c.method, c.url, f.Msg), in)
+			rep.Violate("C08.b", "blocked-forever:"+c.label+":"+c.setup, fmt.Sprintf("%s %s (session %q): %s", c.method, c.url, c.setup, f.Msg), in)
 		case strings.HasPrefix(f.Sig, "panic:"):
 			rep.Violate("C08.a", f.Sig, fmt.Sprintf("%s %s: panic outside the recovery middleware: %s", c.method, c.url, f.Msg), in)
 		}
@@ -355,7 +404,12 @@ func c08Run(rep *vh.Report, srv *Server, c c08Case) {
 		return
 	}
 	if resp.vCrashed() {
-		site, val := vPanicSite(srv.c08Handler(c.handler), c.method, c.url, c.body)
+		var site, val string
+		if c.label == "api" {
+			vrt.Run(nil, opts, func(s *vrt.Sched) { site, val = vPanicSite(srv.c08Handler(c.handler), c.method, c.url, c.body) })
+		} else {
+			site, val = vPanicSite(srv.c08Handler(c.handler), c.method, c.url, c.body)
+		}
 		if site == "" {
 			site = "not-reproduced-on-handler"
 		}
